@@ -1,6 +1,7 @@
 import Uhppote.Model.Events
 import Uhppote.Gen.Messages
 import Uhppote.Props.C04
+import Uhppote.Props.C03
 /-! # C11 — discovery returns exactly the controllers that answered, despite network noise (partial)
 
 `Model.Events.discover` is `broadcast` + `GetDevices` as a function of the datagrams the driver
@@ -67,5 +68,12 @@ theorem C11_no_more_than_received (ds : List Bytes) : (discover F T B cfg R ds).
 theorem C11_no_panic (L : Layout) (h : Gen.Messages.all.lookup "GetDeviceResponse" = some L) (d : Bytes) :
     unmarshal Gen.codecFacts C12.genTables C18.wireBounds L d ≠ .panic :=
   C04.C04_unmarshal_total _ L h d
+
+/-- T5 obligation: the receive buffer of `Broadcast` is larger than a message, so an over-long datagram is seen as over-long and hence ignored, never a phantom entry
+    (`C11_wrong_length_ignored` applied to what the buffer holds, `C03.C03_length_visible`) -/
+theorem C11_receive_buffer : (Gen.Driver.bufSizes.lookup "Broadcast").map (fun n => decide (64 < n)) = some true := by decide
+
+theorem C11_overlong_seen (n : Nat) (h : 64 < n) (d : Bytes) (hd : d.length ≠ 64) : (received n d).length ≠ 64 :=
+  fun hc => hd ((C03.C03_length_visible n h 0 d).1.1 hc)
 
 end Uhppote.Props.C11
